@@ -5,7 +5,8 @@ import common as C
 import scen, sprop, oracle_tp, refpeer as R
 from scen import payload
 
-FILES = ['theories/Base.v', 'theories/gen/Codec.v', 'theories/gen/Tp22Gen.v', 'theories/CodecGlue.v', 'theories/Mpg.v', 'proofs/MpgProofs.v']
+FILES = ['theories/Base.v', 'theories/gen/Codec.v', 'theories/gen/Tp21Gen.v', 'theories/gen/CaGen.v', 'theories/gen/Tp22Gen.v', 'theories/CodecGlue.v',
+         'theories/Model21.v', 'theories/Model22.v', 'theories/Replay21.v', 'theories/Replay22.v', 'proofs/CodecProofs.v', 'proofs/Flat.v', 'proofs/MpgProofs.v']
 LEGAL = [0, 1, 2, 3, 4, 5, 6, 7, 8, 12, 16, 20, 24, 32, 48, 64]
 FBFF, FEFF = 2, 3
 
@@ -125,7 +126,8 @@ def oracle(sc, res):
             if want.get(key, 0) == 0:
                 v.append(dict(kind='group-in-wrong-frame-or-corrupted', ff=ff, dest=dest, pgn=cpgn, length=len(d)))
         if ext and dec:
-            if prio != min(g['prio'] for g in groups if any((g['ff'], g['dest'], g['pgn'], g['data']) == (ff, dest, c, d) for (_, _, c, d) in dec)):
+            ps_ = [g['prio'] for g in groups if any((g['ff'], g['dest'], g['pgn'], g['data']) == (ff, dest, c, d) for (_, _, c, d) in dec)]
+            if ps_ and prio != min(ps_):
                 v.append(dict(kind='frame-priority-not-minimum', prio=prio))
     for key, n in want.items():
         if seen.get(key, 0) != n:
@@ -163,3 +165,16 @@ def oracle(sc, res):
 
 def nontrivial(sc, res):
     return any(e[2] == 'tx' and e[1] == 0 and len(e[6]) > 12 for e in res.trace)
+
+
+def run(out, tier, rng, work):
+    out.rule = ('one real J1939-22 sender and two real receivers; sequences of 1..12 send_pgn calls with lengths 1..60, PDU1/PDU2, 1..3 '
+                'destinations incl. global, time limits {0, 1..200 ms}, FEFF end to end and FBFF broadcast (decoded by an independent decoder), '
+                'from the application thread or from a timer callback, at instants spread over the job thread\'s sleep; oracle: every group on '
+                'the bus exactly once in a frame of its own format/destination, legal FD length <= 64, skippable padding, minimum priority, '
+                'no later than submit + limit + J, delivered once to the addressed listeners; all handler logs replayed on the Coq model '
+                '(Model22); non-trivial = a frame with more than one group or padding was sent')
+    out.assumptions = ['A1-A6 of DESIGN.md section 3', 'FBFF frames are not received by the stack (11-bit ids are dropped by the listener): decoded by the oracle only']
+    sprop.run_stateful(out, 'C11', tier, rng, work, FILES, gen, oracle, 120, 3000, nontrivial,
+                       sample=lambda sc, res: dict(sends=[e['a'][1:3] + [e['a'][5]['len']] + e['a'][6:8] for e in sc['script'] if e['op'] == 'send'][:5],
+                                                   frames=sum(1 for e in res.trace if e[2] == 'tx')))
